@@ -29,7 +29,7 @@ fn strategy(t: Tier) -> BoxedStrategy<History> {
 fn parts() -> Vec<Box<dyn PartDyn>> {
     vec![Box::new(GenPart {
         name: "twin",
-        quick: 10_000,
+        quick: 30_000,
         thorough: 250_000,
         shrink_iters: 1500,
         strat: strategy,
